@@ -221,6 +221,12 @@ func lineages(s *node.Settings, A, B *node.Wallet, length int) ([]*ledger.Block,
 // the operations, run synchronously on world w
 func runOuter(w *World, outer string, txKey int) {
 	switch outer {
+	case "Blockchain.Update:tipswap":
+		// a sync round that swaps the tip for a competitor of the same height (prepared before: see onePlacement)
+		if w.competitor != nil {
+			w.publish(w.competitor)
+			w.H.Chain.Update(farFuture)
+		}
 	case "Blockchain.Update":
 		// the neighbour serves the other lineage, two blocks longer than the host: a deep fork (Clear + rebuild);
 		n := len(w.H.AllBlocks()) + 2
@@ -338,7 +344,7 @@ func onePlacement(sp placementSpec) (out placementOutcome) {
 	prepare := func(w *World) {
 		submit(w, 1)
 		submit(w, 2)
-		if strings.HasPrefix(sp.Inner, "engine:Blockchain.Update:tipswap") {
+		if strings.HasPrefix(sp.Inner, "engine:Blockchain.Update:tipswap") || sp.Outer == "Blockchain.Update:tipswap" {
 			c, err := competitorOf(w, strings.HasSuffix(sp.Inner, "-conflict"))
 			if err != nil {
 				out.Panic = "competitor: " + err.Error()
@@ -499,6 +505,12 @@ func runPlacements(tablesPath, work string, seed int64, sel string, workers int)
 			k := "TransactionsPool.Validate@" + canon + "/" + in
 			specs = append(specs, placementSpec{"TransactionsPool.Validate", where, canon, in, "dynamic-only", "C16/placement/" + k})
 		}
+	}
+	// … and the converse: block production (which confirms the host's tip) and an admission, run to completion while a
+	// tip-swapping sync round waits for its neighbour's answer
+	for _, in := range []string{"engine:TransactionsPool.Validate", txRoot} {
+		k := "Blockchain.Update:tipswap@GetBlocks/" + in
+		specs = append(specs, placementSpec{"Blockchain.Update:tipswap", "sender", "GetBlocks", in, "dynamic-only", "C16/placement/" + k})
 	}
 	sort.Slice(specs, func(i, j int) bool { return specs[i].Signature < specs[j].Signature })
 	// chunks
